@@ -9,7 +9,7 @@ import (
 	"verifharness/internal/val"
 )
 
-var c08Floor = []string{"depth.2", "depth.3", "inner.empty", "outer.empty", "ragged", "where", "item.alias", "item.nonidempotent", "item.star", "mix"}
+var c08Floor = []string{"depth.2", "depth.3", "inner.empty", "outer.empty", "mid.empty", "ragged", "where", "item.alias", "item.nonidempotent", "item.star", "mix"}
 
 func init() {
 	fw.Register(&fw.Prop{
@@ -42,7 +42,7 @@ func c08Run(c *fw.Case) {
 	switch force {
 	case "depth.2":
 		depth = 2
-	case "depth.3":
+	case "depth.3", "mid.empty":
 		depth = 3
 	}
 	feats = append(feats, fmt.Sprintf("depth.%d", depth))
@@ -94,6 +94,15 @@ func c08Run(c *fw.Case) {
 		out := make([]any, n)
 		for i := range out {
 			out[i] = build(d - 1)
+		}
+		// an empty array at an intermediate level, typically last (the shape
+		// that stops a pass-by-pass flattener early)
+		if d == depth && depth == 3 && n > 0 && (force == "mid.empty" || c.Chance(0.25)) {
+			out[len(out)-1] = []any{}
+			if c.Chance(0.3) {
+				out[c.Intn(len(out))] = []any{}
+			}
+			feats = append(feats, "mid.empty")
 		}
 		return out
 	}
